@@ -621,6 +621,10 @@ func dispatch(fd *ast.FuncDecl) [][2]string {
 }
 
 func main() {
+	if len(os.Args) > 1 && os.Args[1] == "-keys" {
+		keysMain()
+		return
+	}
 	rsFile := parse("lib/query/reference_scope.go")
 	prFile := parse("lib/query/processor.go")
 	fnFile := parse("lib/query/user_defined_function.go")
